@@ -142,6 +142,17 @@ def translate(ctx):
     body.append("def readable : List Str :=\n  " + lean_list(readable, _chars) + "\n")
     body.append("/-- `INPUT_MODULES` in dict order -/")
     body.append("def inputModules : List Str :=\n  " + lean_list(list(INPUT_MODULES), _chars) + "\n")
+    body.append("/-- every public module found in the `iodata.inputs` package, and whether it defines `write_input` -/")
+    import pkgutil
+
+    import iodata.inputs as _inp
+
+    found = []
+    for mi in sorted(pkgutil.iter_modules(_inp.__path__), key=lambda m: m.name):
+        mod = __import__("iodata.inputs." + mi.name, fromlist=["x"])
+        found.append((mi.name, hasattr(mod, "write_input")))
+    body.append("def inputPackage : List (Str × Bool) :=\n  ["
+                + ", ".join(f"({_chars(n)}, {'true' if w else 'false'})" for n, w in found) + "]\n")
     body.append("/-- the lists of formats printed by `python -m iodata --help` (`__main__.DESCRIPTION`) -/")
     body.append("def cliHelp : List (Str × List Str) :=\n  ["
                 + ",\n   ".join(f"({_chars(op)}, {lean_list(names, _chars)})" for op, names in _cli_help()) + "]\n")
@@ -672,6 +683,18 @@ def search(ctx):
                          f"({kind}, seed {sd}) that loads without error",
                          {"kind": "guaranteed-mutant", "file": name, "seed": sd, "module": modname, "attr": a})
     ctx.extra_cov["mutated_files_loaded_and_checked_against_guaranteed"] = nmut
+    # (2c) names that are not programs with an input writer (helper modules of the package, format names, misspellings)
+    import pkgutil
+
+    import iodata.inputs as _inp
+
+    helpers = [mi.name for mi in pkgutil.iter_modules(_inp.__path__)
+               if not hasattr(__import__("iodata.inputs." + mi.name, fromlist=["x"]), "write_input")]
+    for name in helpers + ["", "xyz", "Gaussian", "orca ", "inputs", "__init__"]:
+        bad = check_input_name(name)
+        ctx.count("search-input-name", name, "ok" if bad is None else "bad")
+        if bad:
+            ctx.fail(bad[0], bad[1], {"kind": "input-name", "name": name})
     # (3) required attributes are enforced before the file is opened
     objs = _pool_objects()
     from iodata.api import FORMAT_MODULES
@@ -695,6 +718,33 @@ def search(ctx):
                                                       "iterable": it})
 
 
+def check_input_name(name):
+    """write_input with a format name that is not a program with a writer: FileFormatError, target untouched"""
+    import numpy as np
+    from iodata import IOData, write_input
+    from iodata.utils import FileFormatError
+
+    mol = IOData(atnums=np.array([8, 1, 1]), atcoords=np.array([[0, 0, 0.0], [0, 1.4, 1.1], [0, -1.4, 1.1]]))
+    with tempfile.TemporaryDirectory(prefix="c17i-") as tmp:
+        target = os.path.join(tmp, "job.in")
+        with open(target, "w") as fh:
+            fh.write("SENTINEL")
+        try:
+            with warnings.catch_warnings():
+                warnings.simplefilter("ignore")
+                write_input(mol, target, fmt=name)
+            outcome = "no-exception"
+        except FileFormatError:
+            outcome = "FileFormatError"
+        except Exception as exc:  # noqa: BLE001
+            outcome = type(exc).__name__
+        content = open(target).read()
+    if outcome != "FileFormatError" or content != "SENTINEL":
+        return (f"input-format-name:{name}", f"write_input(fmt={name!r}) ended with {outcome}"
+                + ("" if content == "SENTINEL" else " after overwriting the existing output file") + "; expected FileFormatError, file untouched")
+    return None
+
+
 def _replay_mutant(inp):
     res = _mutant_worker((inp["file"], [inp["seed"]]))
     return any(inp["attr"] in r[5] for r in res)
@@ -712,6 +762,8 @@ def replay(ctx, obj):
             if res[0] == inp["file"] and res[1] == inp["op"] and inp["attr"] in res[4]:
                 return True
         return False
+    if inp["kind"] == "input-name":
+        return check_input_name(inp["name"]) is not None
     if inp["kind"] == "required":
         status, bad, _ = check_required(inp["module"], inp["op"], inp["attr"], base_name=inp.get("base"), iterable=inp.get("iterable", "list"))
         return bad is not None
